@@ -3,7 +3,7 @@
    gen/G_kind.v (regenerated from ReparameterizedTimeTreeModel.cpu/cuda/to on every run). *)
 From Coq Require Import QArith Reals List.
 Import ListNotations.
-From TT Require Import Num NumR NumQ ParamQ ParamI Tree M_height M_kind G_kind P_height P_height_param P_kind.
+From TT Require Import Num NumR NumQ ParamQ ParamI Tree M_height M_kind G_kind P_height P_height_param P_height_inv P_kind.
 Open Scope R_scope.
 
 (* Ratio parameterisation, EVERY topology, EVERY sampling-time vector (ties included): with the
@@ -41,6 +41,50 @@ Theorem C06_diff_roundtrip : forall n times x t,
 Proof. exact diff_roundtrip_l. Qed.
 Print Assumptions C06_diff_roundtrip.
 
+(* THE OTHER DIRECTION: forward after inverse.  For a tree of heights of the right shape whose tips sit at their
+   sampling times and on which the inverse does not divide by zero ([ratio_defined]: parent height <> bound at every
+   non-root internal node; implied by [strictly_above]: every internal node strictly above the oldest tip below
+   it), re-applying the forward map to ANY vector that agrees with the pairs (node, value) returned by the inverse
+   gives the tree back.  No assumption on how the vector is laid out. *)
+Theorem C06_ratio_forward_after_inverse : forall n times x t ht,
+  same_shape t ht -> tips_at times ht -> ratio_defined times None t ht ->
+  (forall j v, In (j, v) (ratio_inv NumR times None t ht) -> x_of NumR n x j = v) ->
+  ratio_fwd NumR n times x None t = ht.
+Proof. exact ratio_fwd_inv. Qed.
+Print Assumptions C06_ratio_forward_after_inverse.
+(* ... in particular with the numbering setup_indexes produces (n taxa, internal nodes n .. 2n-2) and the vector
+   of the n-1 parameters assembled from the inverse *)
+Theorem C06_ratio_forward_after_inverse_indexed : forall times tr ht,
+  let t := index_tree tr in let n := leaves tr in
+  same_shape t ht -> tips_at times ht -> ratio_defined times None t ht ->
+  ratio_fwd NumR n times (assemble n (n - 1) (ratio_inv NumR times None t ht)) None t = ht.
+Proof. exact ratio_fwd_inv_indexed. Qed.
+Print Assumptions C06_ratio_forward_after_inverse_indexed.
+(* the inverse maps valid trees strictly above their bounds INTO the parameter domain (root above its bound,
+   ratios in (0,1]) and the forward map sends that domain to such trees: mutually inverse bijections *)
+Theorem C06_ratio_inverse_lands_in_domain : forall times i l r ht,
+  same_shape (INode i l r) ht -> wf_order ht -> strictly_above times (INode i l r) ht ->
+  exists rest, ratio_inv NumR times None (INode i l r) ht = (i, hh ht) :: rest
+    /\ bound NumR times (INode i l r) < hh ht /\ Forall (fun p => 0 < snd p <= 1) rest.
+Proof. exact ratio_inv_domain. Qed.
+Print Assumptions C06_ratio_inverse_lands_in_domain.
+Theorem C06_ratio_forward_lands_strictly_above : forall n times x i l r,
+  bound NumR times (INode i l r) < x_of NumR n x i -> (forall j, In j (ipre l ++ ipre r) -> 0 < x_of NumR n x j) ->
+  strictly_above times (INode i l r) (ratio_fwd NumR n times x None (INode i l r)).
+Proof. exact ratio_fwd_strict. Qed.
+Print Assumptions C06_ratio_forward_lands_strictly_above.
+(* increments: no side condition at all; valid trees <-> non-negative increments *)
+Theorem C06_diff_forward_after_inverse : forall n times x t ht,
+  same_shape t ht -> tips_at times ht ->
+  (forall j v, In (j, v) (diff_inv NumR ht) -> lk x (nsub j n) 0 = v) ->
+  diff_fwd NumR n times x t = ht.
+Proof. exact diff_fwd_inv. Qed.
+Print Assumptions C06_diff_forward_after_inverse.
+Theorem C06_diff_inverse_domain : forall ht,
+  wf_order ht <-> Forall (fun p => 0 <= snd p) (diff_inv NumR ht).
+Proof. exact diff_inv_domain. Qed.
+Print Assumptions C06_diff_inverse_domain.
+
 (* Branch lengths are parent height minus child height (by child index) and are non-negative on a
    valid time tree. *)
 Theorem C06_branch_is_difference : forall ht,
@@ -71,3 +115,5 @@ Example C06_example :
   map show_q (node_heights (ratio_fwd NumQ 3 [sq 0; sq (1#2); sq 0] [sq (1#2); sq (2#1)] None t))
   = map show_q [sq 0; sq (1#2); sq 0; sq (5#4); sq (2#1)].
 Proof. vm_compute. reflexivity. Qed.
+(* ... and the valid tree of heights 5/4, 2 over these tips is mapped to ratio 1/2, root height 2 and back *)
+Example C06_example_inverse := height_inv_example.
